@@ -223,6 +223,7 @@ class Ctx:
         self.defs = {}
         self.decomps = Decomps(self)
         self.membership = Membership(self)
+        self.elem_facts = []       # [(seq term, fn(index term, element term) -> Bool)]: quantified callee postconditions, instantiated at element reads
 
     # ---- fresh symbols / path condition
     def fresh(self, name, sort):
@@ -415,6 +416,10 @@ class Ctx:
             return out
         if isinstance(v, VChunks) and isinstance(ty, ListT) and v.items is not None:
             return [z3.Concat(*[z3.Unit(t) for t in v.items]) if len(v.items) > 1 else z3.Unit(v.items[0])]
+        if isinstance(v, VChunks) and isinstance(ty, _v._TChunks):
+            return [v.flat]
+        if isinstance(v, VEmptyList) and isinstance(ty, _v._TChunks):
+            return [z3.StringVal('')]
         if isinstance(v, VChunks):
             raise OutOfSubset('chunk list stored in a field')
         if isinstance(ty, TupleT):
@@ -726,6 +731,15 @@ def explore(world, run_path, max_paths=4000):
             res = PathResult('end', None, ctx)
         except OutOfSubset as e:
             res = PathResult('oos', str(e), ctx)
+            # the fast feasibility check over-approximates (string atoms are free): before reporting a construct
+            # outside the subset, ask the full solver whether this path can be taken at all
+            try:
+                from .verify import smt_check
+                st = smt_check(list(ctx.pc), z3.BoolVal(False), 4000, None, defs=getattr(ctx, 'defs', None))[0]
+                if st == 'discharged':
+                    res = PathResult('end', None, ctx)
+            except Exception:
+                pass
         results.append(res)
         work.extend(ctx.alternatives)
         if len(results) > max_paths:
